@@ -28,6 +28,7 @@ BOUNDS = {
 }
 STUBS = [
     "struct.unpack('>I', chunk) returns the length the writer stored at that offset (the prefix codec itself is decided in C02-O1)",
+    "RecordPacker.descriptors with look-ups by equality instead of hashing in O4 (a symbolic key would be realised by hash())",
     "packer.unpack(chunk) returns the frame's object iff chunk is exactly the frame body, else raises (msgpack is self-delimiting; validated concretely every run)",
     "a record frame whose descriptor frame is absent raises at unpack (decided for the real unpack_obj in obligation O4)",
 ]
@@ -354,15 +355,38 @@ def unknown_identifier():
     D1 = RecordDescriptor("t/ev", [("varint", "n")])
     h1 = D1.identifier[1]
 
+    class EqDict(dict):
+        """the registry with look-ups by equality instead of hashing (hashing a symbolic key would realise it): same contract"""
+
+        def _find(self, key):
+            for k in dict.keys(self):
+                if k[0] == key[0] and k[1] == key[1]:
+                    return k
+            return None
+
+        def __contains__(self, key):
+            return self._find(key) is not None
+
+        def __getitem__(self, key):
+            k = self._find(key)
+            if k is None:
+                raise KeyError(key)
+            return dict.__getitem__(self, k)
+
+        def get(self, key, default=None):
+            k = self._find(key)
+            return default if k is None else dict.__getitem__(self, k)
+
     def check(h: int, grouped: bool, known_name: bool) -> bool:
         """
         post: _
         """
         if not (0 <= h < 2**32):
             return True
-        same = h == h1  # branch before the dictionary lookup realises h: both sides are explored
+        same = h == h1
         p = RecordPacker()
         p.register(D1)
+        p.descriptors = EqDict(p.descriptors)
         p.unpack = lambda data: data  # tree-level transport: the ext payload is handed over decoded
         name = "t/ev" if known_name else "t/other"
         values = (5, None, None, None, 1)
@@ -424,7 +448,7 @@ def obligations(tier, seed):
         obs.append(ob(f"O2-iter-selector/{v[0]}{v[1]}{v[2]}", "xh", "iteration", {"k0": v[0], "k1": v[1], "k2": v[2], "with_selector": True}, timeout=to * 3, group="O2-iter", bounds="as O2 with an uninterpreted selector"))
     obs.append(ob("O2-header", "xh", "header", {}, timeout=to, bounds="every cut of the header frame x every single-bit flip position"))
     obs.append(ob("O3-writer-faults", "xh", "writer_faults", {}, timeout=to, bounds="2 records, j <= 6, all short counts, all body lengths < 2^32"))
-    obs.append(ob("O4-unknown-identifier", "xh", "unknown_identifier", {}, timeout=15, bounds="identifier equal / different from the announced one (the dictionary lookup realises the value: hunt only)", hunt_only=True))
+    obs.append(ob("O4-unknown-identifier", "xh", "unknown_identifier", {}, timeout=15, bounds="all 2^32 hash values of the identifier x plain or grouped member x known or unknown type name (registry look-ups by equality)"))
     return obs
 
 
